@@ -257,7 +257,16 @@ def wide_profile(rng, D, g, second=False, w=None):
     span stays >= 1e-7, i.e. variances down to 1e-14 of the largest).  Every principal variance is genuine and
     non-degenerate: none is 'numerically zero' in the relative sense, and the directions g .. D-1 are separated from
     each other by factors 9 .. 100 in variance although all of them are 1e-8 .. 1e-14 of the largest."""
+    tries = 0
     while True:
+        # the span condition below cannot always be met with a fixed wide ratio plus a second one (e.g. 3e-5 and
+        # another <= 1e-4 at D = 3): after a bounded number of draws the second wide ratio, then the fixed one, is
+        # given up, so the generator always terminates (the thorough tier used to spin here forever)
+        tries += 1
+        if tries > 60:
+            second = False
+        if tries > 200:
+            w = None
         ratios = [rng.choice(MILD_RATIOS) for _ in range(D - 1)]
         ratios[g - 1] = w or rng.choice(WIDE_RATIOS)
         if second and D > 2:
